@@ -78,6 +78,9 @@ def call_add_signal(fr, stg, spec, opts, brange, ref, lo, hi, R=None):
     kw = dict(opts)
     if brange is not None:
         kw['bounding_f_range'] = tuple(brange)
+    # caller-owned arrays handed to the library (C06 checks that they come back unchanged: "and nothing else")
+    ref._caller_arrays = [(nm, a, np.array(a, copy=True)) for nm, a in (('path', path), ('t_profile', tprof), ('bp_profile', bp))
+                          if isinstance(a, np.ndarray)]
     if spec['bp']['kind'] == 'array':
         Sf = opts['f_subsamples'] if opts.get('integrate_f_profile') else 1
         full_ok = (lo == 0 and hi == fr.fchans and Sf == 1)
